@@ -85,7 +85,21 @@ func (m SliceDotsMatcher) Match(got reflect.Value, d data.Data, r Region) (data.
 		return d, false
 	}
 
-	return m.matchSections(0, gotItems, d, r, idx)
+	return m.matchSections(0, gotItems, d, r, idx, make(deadEnds))
+}
+
+// deadEnds records, for one set of metavariable bindings, the (section,
+// index) pairs from which the rest of the pattern is known not to match.
+type deadEnds map[[2]int]struct{}
+
+// metavarCount returns the number of metavariables bound in d.
+func metavarCount(d data.Data) (n int) {
+	for _, k := range d.Keys() {
+		if _, ok := k.(metavarKey); ok {
+			n++
+		}
+	}
+	return n
 }
 
 // matchSections matches Sections[i+1:] against got[idx:]. Each "..." takes
@@ -94,12 +108,24 @@ func (m SliceDotsMatcher) Match(got reflect.Value, d data.Data, r Region) (data.
 // position for a section does not lead to a full match, later positions are
 // tried.
 //
+// Whether Sections[i+1:] match got[idx:] depends on i, idx and the
+// metavariables bound so far, not on which items the earlier "..." skipped.
+// dead remembers the (i, idx) that are known to fail under the current
+// bindings; a candidate that binds another metavariable continues with a
+// fresh record. Without it the same remainder is tried again from every
+// combination of earlier choices, which takes time exponential in the number
+// of "...".
+//
 // Invariant: If ok is true, a list of skipped items will have been pushed to
 // Data for every "...".
-func (m SliceDotsMatcher) matchSections(i int, got []reflect.Value, d data.Data, r Region, idx int) (_ data.Data, ok bool) {
+func (m SliceDotsMatcher) matchSections(i int, got []reflect.Value, d data.Data, r Region, idx int, dead deadEnds) (_ data.Data, ok bool) {
 	if i == len(m.Sections)-1 {
 		return d, idx == len(got)
 	}
+	if _, failed := dead[[2]int{i, idx}]; failed {
+		return d, false
+	}
+	bound := metavarCount(d)
 
 	dots, want := m.Dots[i], m.Sections[i+1]
 
@@ -116,11 +142,16 @@ func (m SliceDotsMatcher) matchSections(i int, got []reflect.Value, d data.Data,
 		if !ok {
 			continue
 		}
-		if newD, ok := m.matchSections(i+1, got, newD, r, newIdx); ok {
+		next := dead
+		if metavarCount(newD) != bound {
+			next = make(deadEnds)
+		}
+		if newD, ok := m.matchSections(i+1, got, newD, r, newIdx, next); ok {
 			return newD, true
 		}
 	}
 
+	dead[[2]int{i, idx}] = struct{}{}
 	return d, false
 }
 
